@@ -38,7 +38,7 @@ structure Entry where
   fields : List (String × Fld)
   deriving Repr
 
-private def group : (String × Fld) := ("group", .raw 4 4)
+def group : (String × Fld) := ("group", .raw 4 4)
 
 def table : List Entry := [
   { type := 0x11, rule := .exact 8, kind := "MembershipQuery", hdrLen := 8,
@@ -65,7 +65,7 @@ def nextBound (bs : List Nat) (l : Nat) : Nat :=
 def decode (m : Bytes) : Outcome :=
   if m.length < 8 then .tooShort 8 m.length
   else
-    let cands := table.filter fun e => e.type = bAt m 0
+    let cands := table.filter fun e => bAt m 0 = e.type
     match cands with
     | [] =>
       .ok { kind := "Unknown", sub := "",
